@@ -8,6 +8,7 @@ import (
 	"os"
 	"path/filepath"
 	"strings"
+	"time"
 
 	"verif/mx"
 	"verif/vlib"
@@ -156,6 +157,8 @@ func model(cf config, args []string) expect {
 
 var dirAll, dirSome string
 
+const ceiling = 10 * time.Second
+
 func script(name string) string {
 	return "#!/bin/sh\nprintf 'X:" + name + ":'\nfor a in \"$@\"; do printf ' %s' \"$a\"; done\necho\n"
 }
@@ -290,7 +293,17 @@ func one(c *vlib.Ctx, cf config, sample bool) {
 	exp := model(cf, args)
 	define(c, cf)
 	block, mod := program(cf, args)
-	r := mx.Run(block, &mx.Opt{Module: mod})
+	r := mx.Run(block, &mx.Opt{Module: mod, Ceiling: ceiling})
+	if r.Hang {
+		// The case goroutine cannot be stopped and may be spinning (an alias expanded over and over
+		// grows its parameter list for ever): report, and leave this worker instead of running on.
+		c.Eval(true, "hang")
+		c.Violation("terminates", cf.String(), "the caller was still blocked "+ceiling.String()+" after the call (a normal case takes milliseconds): command resolution / alias expansion does not terminate\n"+vlib.Clip(r.HangStack, 600))
+		c.P.Exhaustive = false
+		c.Note("a case did not terminate; the worker stopped there (its goroutine cannot be cancelled)")
+		c.HarnessFlush()
+		os.Exit(0)
+	}
 	undefine(c, cf)
 
 	w := cf.String()
@@ -301,10 +314,6 @@ func one(c *vlib.Ctx, cf config, sample bool) {
 	c.Eval(exp.ndefs >= 2 || cf.alias > 0, outcome)
 	if sample {
 		c.Sample(map[string]any{"case": w, "program": block, "module": mod, "stdout": r.Stdout, "exit": r.Exit, "expected": exp.marker})
-	}
-	if r.Hang {
-		c.Violation("terminates", w, "the caller was still blocked after the ceiling (alias expansion must terminate)\n"+vlib.Clip(r.HangStack, 600))
-		return
 	}
 	if mx.HasPanicText(r.Stderr) {
 		c.Violation("no-panic", w, r.String())
